@@ -25,6 +25,7 @@ def shards(tier, with_prefixes=False):
     n = len(gs.corpus())
     for k in range(n):
         out.append({"space": "edit", "k": k})
+        out.append({"space": "tokins", "k": k, "n": 1 if tier == "quick" else 2})
     if with_prefixes:
         out.append({"space": "prefix"})
     return out
@@ -48,6 +49,23 @@ def strings_of(desc):
                     yield t + "$" + u
     elif sp == "edit":
         yield from gs.edits(gs.corpus()[desc["k"]])
+    elif sp == "tokins":
+        # token-level edits: every token of the alphabet (every ordered pair of tokens in
+        # thorough) inserted at every position of a corpus query
+        q = gs.corpus()[desc["k"]]
+        seen = {q}
+        for i in range(len(q) + 1):
+            for t in gs.TOKENS:
+                s1 = q[:i] + t + q[i:]
+                if s1 not in seen:
+                    seen.add(s1)
+                    yield s1
+                if desc["n"] == 2:
+                    for u in gs.TOKENS:
+                        s2 = q[:i] + t + u + q[i:]
+                        if s2 not in seen:
+                            seen.add(s2)
+                            yield s2
     elif sp == "prefix":
         for q in gs.corpus():
             yield from gs.prefixes(q)
